@@ -199,6 +199,18 @@ func rootOfLoad(v ssa.Value) string {
 // isHeaderWriter: a function named write* that emits marker segments (calls WriteSegment /
 // binary.Write / WriteByte on a writer).
 func isHeaderWriter(fn *ssa.Function) bool {
+	// structural: the function emits a marker or a marker segment on one of its sinks (whatever it
+	// is called and whichever emission idiom it uses)
+	if producesOutput(fn) {
+		for _, s := range outputSinks(fn) {
+			ws, _ := sinkWritesOf(fn, s)
+			for _, w := range ws {
+				if w.what == "marker" || w.what == "segment" || w.what == "sot" {
+					return true
+				}
+			}
+		}
+	}
 	name := fn.Name()
 	if !(strings.HasPrefix(name, "write") || strings.HasPrefix(name, "Write")) {
 		return false
